@@ -183,6 +183,9 @@ func (t *transport) writePacket(packet []byte) error {
 	if debugTransport {
 		t.printPacket(packet, true)
 	}
+	if err := verifBeforeWrite(t, packet); err != nil {
+		return err
+	}
 	return t.writer.writePacket(t.bufWriter, t.rand, packet, t.strictMode)
 }
 
